@@ -60,6 +60,8 @@ class Kernel:
         self.pipe_pending = False      # the master's wake-up pipe (Arbiter.wakeup writes, Arbiter.sleep selects + drains)
         self.model_pipe = False
         self.signal_gap_ds = 0         # virtual time that passes before each scripted master signal arrives
+        self.clock_reads = 0
+        self.clock_deaths = {}         # clock-read index -> worker index that dies at that very read
 
     # -- helpers ------------------------------------------------------------------------------------
     def alive(self):
@@ -195,6 +197,15 @@ class Kernel:
         self._tick()
 
     def time(self):
+        # a clock read is a point at which a signal can arrive like at any other instruction: `clock_deaths` maps the
+        # index of a clock read to the worker (index in spawn order) that dies right there, SIGCHLD handled at once
+        k = self.clock_reads
+        self.clock_reads += 1
+        if k in self.clock_deaths and not self.in_handler:
+            i = self.clock_deaths[k]
+            if i < len(self.order) and self.procs.get(self.order[i]) == "alive":
+                self._zombify(self.order[i], self._next_status())
+                self._sigchld()
         return self.now / 10.0
 
     monotonic = time
@@ -242,6 +253,9 @@ class Tmp:
         self.frozen = None
 
     def last_update(self):
+        if self.closed:
+            # the real WorkerTmp: os.fstat(self._tmp.fileno()) on a closed file object
+            raise ValueError("I/O operation on closed file")
         pid = self.worker.pid
         if pid in self.K.order:
             h = self.K.hang.get(self.K.order.index(pid))
@@ -271,6 +285,8 @@ def worker_class(K):
             self.cfg = cfg
             self.aborted = False
             self.booted = True
+            self.alive = True          # the master-side Worker object carries the same attributes as the real class
+            self.nr = 0
             self.tmp = Tmp(K, self)
     return FakeWorker
 
